@@ -282,11 +282,15 @@ func SfApiBody(ep, cls, stream string) (body []byte, has bool) {
 	case "caps":
 		return []byte(strings.ToUpper(string(obj(okFields)))), true
 	// start_relay_pull url classes
-	case "url_empty", "url_garbage", "url_noscheme", "url_nopath", "url_onlyapp", "url_badport", "url_rtsp", "url_rtsp_user", "url_flv", "url_unknown", "url_space", "url_long", "url_ipv6":
+	case "url_empty", "url_garbage", "url_noscheme", "url_nopath", "url_onlyapp", "url_badport", "url_rtsp", "url_rtsp_user", "url_flv", "url_unknown", "url_space", "url_long", "url_ipv6",
+		"url_q1", "url_q2", "url_q2app", "url_q2root", "url_q3", "url_frag", "url_qonly":
 		u := map[string]string{"url_empty": "", "url_garbage": "::::%%%", "url_noscheme": "127.0.0.1/live/x", "url_nopath": "rtmp://127.0.0.1:1",
 			"url_onlyapp": "rtmp://127.0.0.1:1/live", "url_badport": "rtmp://127.0.0.1:99999999/live/x", "url_rtsp": "rtsp://127.0.0.1:1/live/x",
 			"url_rtsp_user": "rtsp://u:p@127.0.0.1:1/", "url_flv": "http://127.0.0.1:1/live/x.flv", "url_unknown": "gopher://127.0.0.1:1/live/x",
-			"url_space": "rtmp://127.0.0.1:1/li ve/x y", "url_long": "rtmp://127.0.0.1:1/live/" + strings.Repeat("x", 50000), "url_ipv6": "rtmp://[::1/live/x"}[cls]
+			"url_space": "rtmp://127.0.0.1:1/li ve/x y", "url_long": "rtmp://127.0.0.1:1/live/" + strings.Repeat("x", 50000), "url_ipv6": "rtmp://[::1/live/x",
+			// question marks: one query, the "vhost" form with two, two without a stream segment, at the root, three, fragment, bare
+			"url_q1": "rtmp://127.0.0.1:1/live/x?a=1&b=2", "url_q2": "rtmp://127.0.0.1:1/live?vhost=v?token=t/x", "url_q2app": "rtmp://127.0.0.1:1/live?x?y",
+			"url_q2root": "rtmp://127.0.0.1:1/?x?y", "url_q3": "rtmp://127.0.0.1:1/live/x?a?b?c", "url_frag": "rtmp://127.0.0.1:1/live/x#f?a?b", "url_qonly": "rtmp://127.0.0.1:1?a?b"}[cls]
 		return []byte(`{"url": ` + q(u) + `, "stream_name": ` + q(stream+cls) + `, "pull_timeout_ms": 200, "pull_retry_num": 0}`), true
 	case "rtp_port_neg":
 		return []byte(`{"stream_name": ` + q(stream+"n") + `, "port": -1, "timeout_ms": 1000}`), true
